@@ -196,6 +196,11 @@ class StmtMixin:
             else:
                 self.cm_HSymList_extend(cur, rhs)
             return cur
+        if isinstance(cur, VRef) and isinstance(self.ex.heap[cur.addr], HBuf):
+            if not isinstance(op, ast.Add):
+                raise Undecided(f'in-place operator {type(op).__name__} on a bytearray')
+            self.cm_HBuf_extend(cur, rhs)
+            return cur
         if isinstance(cur, VRef) and not isinstance(self.ex.heap[cur.addr], HObj):
             raise Undecided(f'in-place operator {type(op).__name__} on a mutable container')
         return self.binop(op, cur, rhs, st)
@@ -579,6 +584,9 @@ class StmtMixin:
                 h.seq = ex.fresh(name, SeqVal)
                 for e in self.tracked():
                     self.fact_part(e, h.seq)
+                return v
+            if isinstance(h, HBuf):
+                h.seq = ex.fresh(name, smt.Bytes)
                 return v
         raise Undecided(f'cannot havoc loop variable {name} = {v!r}: declare its kind in the loop contract')
 
